@@ -130,7 +130,7 @@ Proof.
   assert (Hincl : incl l' (seq 0 (N.to_nat n))).
   { intros y Hy. unfold l' in Hy. apply in_map_iff in Hy as [z [E Hz]]. subst y. apply in_seq.
     specialize (Hlt z Hz). lia. }
-  assert (Hlen' : length (seq 0 (N.to_nat n)) <= length l').
+  assert (Hlen' : (length (seq 0 (N.to_nat n)) <= length l')%nat).
   { unfold l'. rewrite seq_length, map_length. lia. }
   pose proof (NoDup_length_incl Hnd' Hlen' Hincl) as Hrev.
   assert (Hin : In (N.to_nat x) l') by (apply Hrev; apply in_seq; lia).
@@ -141,4 +141,186 @@ Lemma cardN_full : forall (l : list N) (n : N),
 Proof.
   intros l n Hlt Hc x Hx. apply nodupN_In.
   apply (card_full (nodupN l) n); [apply nodupN_NoDup | intros y Hy; apply Hlt; apply nodupN_In; exact Hy | exact Hc | exact Hx].
+Qed.
+
+(* ------------------------------------------------------------------ fragment lookup *)
+Lemma find_frag_some : forall i l f, find_frag i l = Some f -> In f l /\ f_id f = i.
+Proof.
+  intros i l f H. unfold find_frag in H. apply find_some in H as [H E]. apply N.eqb_eq in E. auto.
+Qed.
+Lemma find_frag_none : forall i l, find_frag i l = None <-> ~ In i (ids_of l).
+Proof.
+  intros i l. unfold find_frag, ids_of. split.
+  - intros H Hin. apply in_map_iff in Hin as [f [E Hf]]. pose proof (find_none _ _ H f Hf) as Q.
+    cbv beta in Q. rewrite E, N.eqb_refl in Q. discriminate.
+  - intros H. destruct (find _ l) eqn:E; [|reflexivity]. apply find_some in E as [E1 E2].
+    apply N.eqb_eq in E2. exfalso. apply H. apply in_map_iff. exists f. auto.
+Qed.
+Lemma find_frag_In : forall l f, NoDup (ids_of l) -> In f l -> find_frag (f_id f) l = Some f.
+Proof.
+  induction l as [|g r IH]; intros f Hnd Hin; [destruct Hin|]. cbn [ids_of map] in Hnd.
+  inversion Hnd as [|? ? Hn Hr]; subst. unfold find_frag. cbn [find]. destruct (N.eqb (f_id g) (f_id f)) eqn:E.
+  - apply N.eqb_eq in E. destruct Hin as [Hin | Hin]; [subst; reflexivity|].
+    exfalso. apply Hn. rewrite E. apply in_map. exact Hin.
+  - destruct Hin as [Hin | Hin]; [subst; rewrite N.eqb_refl in E; discriminate|]. apply IH; assumption.
+Qed.
+Lemma find_frag_app : forall i a b,
+  find_frag i (a ++ b) = match find_frag i a with Some f => Some f | None => find_frag i b end.
+Proof.
+  intros i a b. unfold find_frag. induction a as [|f r IH]; cbn [app find]; [reflexivity|].
+  destruct (N.eqb (f_id f) i); [reflexivity | exact IH].
+Qed.
+Lemma find_frag_map : forall (g : frag -> frag) i l, (forall f, f_id (g f) = f_id f) ->
+  find_frag i (map g l) = option_map g (find_frag i l).
+Proof.
+  intros g i l Hg. unfold find_frag. induction l as [|f r IH]; cbn [map find]; [reflexivity|].
+  rewrite Hg. destruct (N.eqb (f_id f) i); [reflexivity | exact IH].
+Qed.
+Lemma find_frag_filter : forall (q : N -> bool) i l,
+  find_frag i (filter (fun f => q (f_id f)) l) = if q i then find_frag i l else None.
+Proof.
+  intros q i l. unfold find_frag. induction l as [|f r IH]; cbn [filter find]; [destruct (q i); reflexivity|].
+  destruct (q (f_id f)) eqn:Eq; cbn [find].
+  - destruct (N.eqb (f_id f) i) eqn:E; [apply N.eqb_eq in E; subst; rewrite Eq; reflexivity | exact IH].
+  - destruct (N.eqb (f_id f) i) eqn:E; [apply N.eqb_eq in E; subst; rewrite Eq in IH |- *; exact IH | exact IH].
+Qed.
+Lemma ids_of_app : forall a b, ids_of (a ++ b) = ids_of a ++ ids_of b.
+Proof. intros. unfold ids_of. apply map_app. Qed.
+Lemma ids_of_map : forall (g : frag -> frag) l, (forall f, f_id (g f) = f_id f) -> ids_of (map g l) = ids_of l.
+Proof.
+  intros g l Hg. unfold ids_of. rewrite map_map. apply map_ext. exact Hg.
+Qed.
+Lemma find_frag_perm : forall i l l', NoDup (ids_of l) -> Permutation l l' -> find_frag i l' = find_frag i l.
+Proof.
+  intros i l l' Hnd Hp.
+  assert (Hnd' : NoDup (ids_of l')).
+  { unfold ids_of. eapply Permutation_NoDup; [apply Permutation_map; exact Hp | exact Hnd]. }
+  destruct (find_frag i l) eqn:E.
+  - apply find_frag_some in E as [Hin Hid]. subst i. apply find_frag_In; [exact Hnd'|].
+    eapply Permutation_in; eassumption.
+  - apply find_frag_none. apply find_frag_none in E. intro H. apply E.
+    unfold ids_of in *. eapply Permutation_in; [apply Permutation_map; apply Permutation_sym; exact Hp | exact H].
+Qed.
+
+Section Sorting.
+  Variable frows : N -> N.
+  Lemma insert_frag_perm : forall f l, Permutation (insert_frag f l) (f :: l).
+  Proof.
+    intros f l. induction l as [|g r IH]; cbn [insert_frag]; [apply Permutation_refl|].
+    destruct (N.ltb (f_id f) (f_id g)); [apply Permutation_refl|].
+    eapply Permutation_trans; [apply perm_skip; exact IH | apply perm_swap].
+  Qed.
+  Lemma sort_frags_perm : forall l, Permutation (sort_frags l) l.
+  Proof.
+    induction l as [|f r IH]; cbn [sort_frags fold_right]; [apply Permutation_refl|].
+    eapply Permutation_trans; [apply insert_frag_perm | apply perm_skip; exact IH].
+  Qed.
+End Sorting.
+
+(* ------------------------------------------------------------------ maxima *)
+Definition omax (a b : option N) : option N :=
+  match a, b with
+  | None, _ => b
+  | _, None => a
+  | Some x, Some y => Some (N.max x y)
+  end.
+Lemma omax_comm : forall a b, omax a b = omax b a.
+Proof. intros [x|] [y|]; cbn; try reflexivity. rewrite N.max_comm. reflexivity. Qed.
+Lemma omax_assoc : forall a b c, omax a (omax b c) = omax (omax a b) c.
+Proof. intros [x|] [y|] [z|]; cbn; try reflexivity. rewrite N.max_assoc. reflexivity. Qed.
+Lemma omax_none_r : forall a, omax a None = a.
+Proof. intros [x|]; reflexivity. Qed.
+Fixpoint lmax (l : list N) : option N :=
+  match l with [] => None | x :: r => omax (Some x) (lmax r) end.
+Lemma fold_max_omax : forall r x, Some (fold_left N.max r x) = omax (Some x) (lmax r).
+Proof.
+  induction r as [|y t IH]; intros x; cbn [fold_left lmax]; [reflexivity|].
+  rewrite IH. rewrite omax_assoc. reflexivity.
+Qed.
+Lemma list_max_lmax : forall l, list_max l = lmax l.
+Proof.
+  intros [|x r]; cbn [list_max lmax]; [reflexivity | apply fold_max_omax].
+Qed.
+Lemma lmax_app : forall a b, lmax (a ++ b) = omax (lmax a) (lmax b).
+Proof.
+  induction a as [|x r IH]; intros b; cbn [app lmax]; [reflexivity|]. rewrite IH. apply omax_assoc.
+Qed.
+Lemma lmax_perm : forall l l', Permutation l l' -> lmax l = lmax l'.
+Proof.
+  intros l l' H. induction H; cbn [lmax]; try congruence.
+  rewrite !omax_assoc. rewrite (omax_comm (Some y) (Some x)). reflexivity.
+Qed.
+Lemma lmax_none : forall l, lmax l = None -> l = [].
+Proof. intros [|x r]; [reflexivity|]. cbn [lmax]. destruct (lmax r); cbn; discriminate. Qed.
+Lemma lmax_le : forall l m, lmax l = Some m -> forall x, In x l -> x <= m.
+Proof.
+  induction l as [|y r IH]; intros m H x Hin; [destruct Hin|]. cbn [lmax] in H.
+  destruct (lmax r) as [mr|] eqn:E; cbn in H; inversion H; subst.
+  - destruct Hin as [Hin | Hin]; [subst; lia|]. specialize (IH mr eq_refl x Hin). lia.
+  - destruct Hin as [Hin | Hin]; [subst; lia|]. apply lmax_none in E. subst. destruct Hin.
+Qed.
+Lemma lmax_bound : forall l M, (forall x, In x l -> x <= M) -> omax (Some M) (lmax l) = Some M.
+Proof.
+  induction l as [|y r IH]; intros M H; cbn [lmax]; [reflexivity|].
+  rewrite omax_assoc. cbn [omax]. rewrite N.max_l by (apply H; left; reflexivity).
+  apply IH. intros x Hx. apply H. right. exact Hx.
+Qed.
+Lemma upd_maxfid_ids_omax : forall prev ids, upd_maxfid_ids prev ids = omax prev (lmax ids).
+Proof.
+  intros prev ids. unfold upd_maxfid_ids. rewrite list_max_lmax. destruct (lmax ids) as [mx|]; [|rewrite omax_none_r; reflexivity].
+  destruct prev as [c|]; cbn [omax]; [|reflexivity]. destruct (N.ltb c mx) eqn:E.
+  - apply N.ltb_lt in E. rewrite N.max_r by lia. reflexivity.
+  - apply N.ltb_ge in E. rewrite N.max_l by lia. reflexivity.
+Qed.
+
+(* ------------------------------------------------------------------ id assignment *)
+Lemma assign_ids_app : forall a b n,
+  assign_ids n (a ++ b) =
+  (fst (assign_ids n a) ++ fst (assign_ids (snd (assign_ids n a)) b), snd (assign_ids (snd (assign_ids n a)) b)).
+Proof.
+  induction a as [|f r IH]; intros b n; cbn [app assign_ids fst snd].
+  - destruct (assign_ids n b); reflexivity.
+  - destruct (N.eqb (f_id f) 0).
+    + rewrite IH. destruct (assign_ids (n + 1) r) as [r1 n1]. cbn [fst snd].
+      destruct (assign_ids n1 b) as [r2 n2]. reflexivity.
+    + rewrite IH. destruct (assign_ids n r) as [r1 n1]. cbn [fst snd].
+      destruct (assign_ids n1 b) as [r2 n2]. reflexivity.
+Qed.
+Definition all_zero (l : list frag) : Prop := forall f, In f l -> f_id f = 0.
+Lemma assign_ids_zero : forall l n, all_zero l ->
+  ids_of (fst (assign_ids n l)) = map (fun k => n + N.of_nat k) (seq 0 (length l)) /\ snd (assign_ids n l) = n + N.of_nat (length l).
+Proof.
+  induction l as [|f r IH]; intros n Hz; cbn [assign_ids]; [split; [reflexivity | cbn; lia]|].
+  rewrite (Hz f (or_introl eq_refl)). cbn [N.eqb]. rewrite N.eqb_refl.
+  destruct (IH (n + 1)) as [E1 E2]; [intros g Hg; apply Hz; right; exact Hg|].
+  destruct (assign_ids (n + 1) r) as [r' n'] eqn:Er. cbn [fst snd] in *. split.
+  - cbn [ids_of map length seq]. cbn [f_id set_id]. f_equal; [lia|].
+    unfold ids_of in E1. rewrite E1. rewrite <- seq_shift, map_map. apply map_ext. intros k. lia.
+  - rewrite E2. cbn [length]. lia.
+Qed.
+Lemma assign_ids_fresh : forall l n f, all_zero l -> In f (fst (assign_ids n l)) -> n <= f_id f.
+Proof.
+  intros l n f Hz Hin. destruct (assign_ids_zero l n Hz) as [E _].
+  assert (Hi : In (f_id f) (ids_of (fst (assign_ids n l)))) by (apply in_map; exact Hin).
+  rewrite E in Hi. apply in_map_iff in Hi as [k [Ek _]]. lia.
+Qed.
+Lemma assign_ids_NoDup : forall l n, all_zero l -> NoDup (ids_of (fst (assign_ids n l))).
+Proof.
+  intros l n Hz. destruct (assign_ids_zero l n Hz) as [E _]. rewrite E.
+  apply FinFun.Injective_map_NoDup; [intros a b H; lia | apply seq_NoDup].
+Qed.
+(* assignment keeps files and deletion file *)
+Lemma assign_ids_shape : forall l n f, In f (fst (assign_ids n l)) ->
+  exists g, In g l /\ f_files f = f_files g /\ f_del f = f_del g.
+Proof.
+  induction l as [|g r IH]; intros n f Hin; cbn [assign_ids] in Hin; [destruct Hin|].
+  destruct (N.eqb (f_id g) 0).
+  - destruct (assign_ids (n + 1) r) as [r' n'] eqn:Er. cbn [fst] in Hin. destruct Hin as [E | Hin].
+    + subst f. exists g. split; [left; reflexivity | split; reflexivity].
+    + assert (Hin' : In f (fst (assign_ids (n + 1) r))) by (rewrite Er; exact Hin).
+      destruct (IH _ _ Hin') as [g' [H1 H2]]. exists g'. split; [right; exact H1 | exact H2].
+  - destruct (assign_ids n r) as [r' n'] eqn:Er. cbn [fst] in Hin. destruct Hin as [E | Hin].
+    + subst f. exists g. split; [left; reflexivity | split; reflexivity].
+    + assert (Hin' : In f (fst (assign_ids n r))) by (rewrite Er; exact Hin).
+      destruct (IH _ _ Hin') as [g' [H1 H2]]. exists g'. split; [right; exact H1 | exact H2].
 Qed.
